@@ -123,3 +123,50 @@ theorem countLocal_eq (d : Dag) (node : Nat) :
   rfl
 
 end SkNet.Topology
+
+namespace SkNet.Topology
+
+/-! ### the merge loop with checked reads -/
+
+/-- the same loop, every read of `indices` checked: `none` = a read outside the array -/
+def mergeLoopChecked (indices : List Nat) (iEnd jEnd : Nat) (i j acc : Nat) : Option Nat :=
+  if i < iEnd ∧ j < jEnd then
+    match indices[i]?, indices[j]? with
+    | some a, some b =>
+      if a = b then mergeLoopChecked indices iEnd jEnd (i+1) (j+1) (acc+1)
+      else if a < b then mergeLoopChecked indices iEnd jEnd (i+1) j acc
+      else mergeLoopChecked indices iEnd jEnd i (j+1) acc
+    | _, _ => none
+  else some acc
+termination_by (iEnd - i) + (jEnd - j)
+
+/-- if both windows end inside the array, no read is out of bounds and the checked loop is the loop -/
+theorem mergeLoopChecked_eq (indices : List Nat) (iEnd jEnd i j acc : Nat)
+    (h1 : iEnd ≤ indices.length) (h2 : jEnd ≤ indices.length) :
+    mergeLoopChecked indices iEnd jEnd i j acc = some (mergeLoop indices iEnd jEnd i j acc) := by
+  fun_induction mergeLoop indices iEnd jEnd i j acc with
+  | case1 i j acc hc heq ih =>
+    rw [mergeLoopChecked, if_pos hc, List.getElem?_eq_getElem (by omega), List.getElem?_eq_getElem (by omega)]
+    simp only
+    rw [List.getD_eq_getElem?_getD, List.getD_eq_getElem?_getD, List.getElem?_eq_getElem (by omega),
+      List.getElem?_eq_getElem (by omega)] at heq
+    simp only [Option.getD_some] at heq
+    rw [if_pos heq, ih]
+  | case2 i j acc hc hne hlt ih =>
+    rw [mergeLoopChecked, if_pos hc, List.getElem?_eq_getElem (by omega), List.getElem?_eq_getElem (by omega)]
+    simp only
+    rw [List.getD_eq_getElem?_getD, List.getD_eq_getElem?_getD, List.getElem?_eq_getElem (by omega),
+      List.getElem?_eq_getElem (by omega)] at hne hlt
+    simp only [Option.getD_some] at hne hlt
+    rw [if_neg hne, if_pos hlt, ih]
+  | case3 i j acc hc hne hlt ih =>
+    rw [mergeLoopChecked, if_pos hc, List.getElem?_eq_getElem (by omega), List.getElem?_eq_getElem (by omega)]
+    simp only
+    rw [List.getD_eq_getElem?_getD, List.getD_eq_getElem?_getD, List.getElem?_eq_getElem (by omega),
+      List.getElem?_eq_getElem (by omega)] at hne hlt
+    simp only [Option.getD_some] at hne hlt
+    rw [if_neg hne, if_neg hlt, ih]
+  | case4 i j acc hc =>
+    rw [mergeLoopChecked, if_neg hc]
+
+end SkNet.Topology
